@@ -41,6 +41,7 @@ contract(
     returns=TStr,
     ensures=lambda c: c.result == meta_spec(c.old, c.new, c.cmp_key),
     modular=True,
+    pure=True,
     props=["C08", "C13"],
 )
 
@@ -50,6 +51,7 @@ contract(
     returns=TStr,
     ensures=lambda c: c.result == hi_spec(c.old, c.new),
     modular=True,
+    pure=True,
     props=["C08"],
 )
 
@@ -89,6 +91,7 @@ contract(
     returns=TStr,
     ensures=_entry_post,
     modular=False,
+    pure=True,
     props=["C08"],
     doc="classified exactly as a key-by-key comparison of hash and metadata dictates; restricting to hashes or metadata never hides a change",
 )
